@@ -12,7 +12,7 @@ def strip_comments(s):
     s = re.sub(r'/\*.*?\*/', '', s, flags=re.S)
     return s
 
-TOK = re.compile(r"\s*(?:(\d+)|('[a-z_]+\b(?!'))|([A-Za-z_][A-Za-z_0-9]*)|(::|->|=>|\.\.|\|\||&&|==|<=|>=|!=|[-+*/%<>=!(){}\[\];,.:&|#]))")
+TOK = re.compile(r"\s*(?:(\d+)|('[a-z_]+\b(?!'))|([A-Za-z_][A-Za-z_0-9]*)|(::|->|=>|\.\.|\|\||&&|==|<=|>=|!=|[-+*/%<>=!(){}\[\];,.:&|#?]))")
 def lex(src):
     out = []; pos = 0; src = src.strip()
     while pos < len(src):
@@ -60,16 +60,21 @@ class P:
         s.i += 1; return t[1]
 
     # ---- types (only classified)
-    def skip_generics(s):
+    def skip_generics(s, collect=False):
+        """skips <...>; with collect: the one-letter type parameter names are remembered as item types of this function"""
+        names = []
         if s.at('<'):
-            d = 0
+            d = 0; prev = None
             while True:
-                v = s.eat()
+                k, v = s.peek(); s.eat()
                 if v == '<': d += 1
                 elif v == '>':
                     d -= 1
                     if d == 0: break
-                elif v == '->': pass
+                if d == 1 and k == 'id' and prev in ('<', ',') and v != 'const': names.append(v)
+                prev = v
+        if collect: s.item_tys = set(getattr(s, 'item_tys', ())) | {n for n in names if len(n) == 1}
+        return names
     def ty(s):
         """returns a kind: nat | val | loc | slice | unit | fn(args,ret) | opt(k) | other"""
         if s.at('&') or s.at('&&'):
@@ -115,12 +120,12 @@ class P:
             if name in ('WorkableSlice', 'NonWorkableSlice'): return ('tuple', ['slice', 'slice'])
         if name == 'usize': return 'nat'
         if name == 'bool': return 'bool'
-        if name == 'T': return 'val'
+        if name == 'T' or name in getattr(s, 'item_tys', ()): return 'val'
         return 'other'
 
     def fn_item(s):
         """fn name<generics>(params) [-> ty] [where ..] { block }"""
-        s.eat('fn'); name = s.eat(); s.skip_generics(); s.eat('(')
+        s.eat('fn'); name = s.eat(); s.skip_generics(collect=True); s.eat('(')
         params = []
         while not s.at(')'):
             if s.at('&'):
@@ -150,6 +155,12 @@ class P:
                 elif v == ']': d -= 1
 
     def pat(s):
+        if s.at('Some') and s.at('(', 1):
+            s.eat(); s.eat('('); p = s.pat(); s.eat(')'); return ('psome', p)
+        if s.at('None'): s.eat(); return ('pnone',)
+        if s.at('_'): s.eat(); return ('pwild',)
+        if s.peek()[0] == 'num': return ('pnum', s.eat())
+        if s.at('true') or s.at('false'): return ('pbool', s.eat())
         if s.at('('):
             s.eat(); ps = []
             while not s.at(')'):
@@ -169,7 +180,17 @@ class P:
             if s.at('let'):
                 s.eat(); p = s.pat()
                 if s.at(':'): s.eat(); s.ty()
-                s.eat('='); e = s.expr(); s.eat(';'); stmts.append(('let', p, e)); continue
+                s.eat('='); e = s.expr()
+                if s.at('else'):
+                    s.eat(); s.eat('{'); eb = s.block(); s.eat('}'); s.eat(';'); stmts.append(('letelse', p, e, eb)); continue
+                s.eat(';'); stmts.append(('let', p, e)); continue
+            if s.at('return'):
+                s.eat(); e = ('unit',) if s.at(';') else s.expr()
+                if s.at(';'): s.eat()
+                stmts.append(('return', e)); continue
+            if s.at('while'):
+                s.eat(); c = s.expr(); s.eat('{'); b = s.block(); s.eat('}')
+                stmts.append(('while', c, b)); continue
             if s.at('for'):
                 s.eat(); p = s.pat(); s.eat('in'); it = s.expr_nostruct(); s.eat('{'); b = s.block(); s.eat('}')
                 stmts.append(('for', p, it, b)); continue
@@ -241,6 +262,8 @@ class P:
                 s.eat(); i = s.expr(); s.eat(']'); e = ('index', e, i)
             elif s.at('('):
                 e = ('call', e, s.args())
+            elif s.at('?'):
+                s.eat(); e = ('try', e)
             else: return e
     def atom(s):
         k, v = s.peek()
@@ -260,12 +283,18 @@ class P:
         if v == '[':
             s.eat(); s.eat(']'); return ('emptyarr',)
         if v == '|' or v == '||':
+            params = []
             if v == '||': s.eat()
-            else: s.eat(); s.eat('|')
-            if s.at('unsafe'): s.eat()
+            else:
+                s.eat()
+                while not s.at('|'):
+                    params.append(s.pat())
+                    if s.at(':'): s.eat(); s.ty()
+                    if s.at(','): s.eat()
+                s.eat('|')
             if s.at('{'):
-                s.eat(); b = s.block(); s.eat('}'); return ('closure', b)
-            return ('closure', [('tail', s.expr())])
+                s.eat(); b = s.block(); s.eat('}'); return ('closure', b, params)
+            return ('closure', [('tail', s.expr())], params)
         if v == 'unsafe':
             s.eat(); s.eat('{'); b = s.block(); s.eat('}'); return ('unsafe', b)
         if v == 'if':
@@ -285,10 +314,10 @@ class P:
         if v == 'match':
             s.eat(); c = s.expr(); s.eat('{'); arms = []
             while not s.at('}'):
-                pk, pvv = s.peek(); s.eat(); s.eat('=>')
+                p = s.pat(); s.eat('=>')
                 if s.at('{'): s.eat(); body = s.block(); s.eat('}')
                 else: body = [('tail', s.expr())]
-                arms.append(((pk, pvv), body))
+                arms.append((p, body))
                 if s.at(','): s.eat()
             s.eat('}'); return ('match', c, arms)
         if k == 'id':
@@ -318,7 +347,7 @@ def cv(name): return name + '_' if name in RESERVED else name
 class Gen:
     """CPS code generation: expr(e, k) builds the monadic term; k receives a PURE Coq term and its kind"""
     def __init__(s, known, selfname):
-        s.n = 0; s.known = known; s.env = {}; s.selfname = selfname
+        s.n = 0; s.known = known; s.env = {}; s.selfname = selfname; s.uses_fuel = False
     def fresh(s, p='v'): s.n += 1; return f'{p}{s.n}'
     def bind(s, rhs, kind, k):
         v = s.fresh(); return f'{v} <~ {rhs} ;; ' + k(v, kind)
@@ -340,6 +369,22 @@ class Gen:
         acc = acc or []
         if not es: return k(acc)
         return s.expr(es[0], lambda a, ka: s.exprs(es[1:], k, acc + [(a, ka)]))
+
+    def args_with_kinds(s, args, pks, k, acc=None):
+        """arguments of a call to a translated function: a closure literal gets its parameter kinds from the callee's signature"""
+        acc = acc or []
+        if not args: return k(acc)
+        a = s.strip(args[0]); pk = pks[len(acc)] if len(acc) < len(pks) else '?'
+        if a[0] == 'closure' and isinstance(pk, tuple) and pk[0] == 'fn':
+            params = a[2] if len(a) > 2 else []
+            if len(params) != len(pk[1]) or any(q[0] != 'pvar' for q in params): raise TErr('closure parameters')
+            saved = dict(s.env)
+            s.env = {kk: v for kk, v in s.env.items() if isinstance(v, tuple) and v[0] == 'fn'}
+            for q, kk in zip(params, pk[1]): s.env[q[1]] = kk
+            body = s.block(a[1]); s.env = saved
+            ps = ' '.join(f'({cv(q[1])} : {coq_ty(kk)})' for q, kk in zip(params, pk[1]))
+            return s.args_with_kinds(args[1:], pks, k, acc + [(f'(fun {ps} => {body})', pk)])
+        return s.expr(args[0], lambda x, kx: s.args_with_kinds(args[1:], pks, k, acc + [(x, kx)]))
 
     def block_value(s, stmts):
         """a block used as an expression: a complete monadic term"""
@@ -392,14 +437,25 @@ class Gen:
             def withc(c, kc):
                 arms = e[2]
                 pats = [a[0] for a in arms]
-                if len(arms) == 2 and {p[1] for p in pats} == {'true', 'false'}:
+                kinds = [p[0] for p in pats]
+                if len(arms) == 2 and sorted(kinds) == ['pbool', 'pbool'] and {p[1] for p in pats} == {'true', 'false'}:
                     d = {p[1]: b for p, b in arms}
                     return s.bind(f'(if {c} then ({s.block_value(d["true"])}) else ({s.block_value(d["false"])}))', '?', k)
-                if len(arms) == 2 and pats[0] == ('num', '0') and pats[1][0] == 'id':
+                if len(arms) == 2 and pats[0] == ('pnum', '0') and kinds[1] in ('pvar', 'pwild'):
                     z = s.block_value(arms[0][1])
-                    saved = dict(s.env); s.env[pats[1][1]] = 'nat'
+                    saved = dict(s.env)
+                    if kinds[1] == 'pvar': s.env[pats[1][1]] = 'nat'
                     nz = s.block(arms[1][1]); s.env = saved
-                    return s.bind(f'(match {c} with 0 => ({z}) | S _ => (let {cv(pats[1][1])} := {c} in {nz}) end)', '?', k)
+                    bind = f'let {cv(pats[1][1])} := {c} in ' if kinds[1] == 'pvar' else ''
+                    return s.bind(f'(match {c} with 0 => ({z}) | S _ => ({bind}{nz}) end)', '?', k)
+                if len(arms) == 2 and sorted(kinds) in (['pnone', 'psome'], ['psome', 'pwild']):
+                    sm = next(a for a in arms if a[0][0] == 'psome'); nn = next(a for a in arms if a[0][0] != 'psome')
+                    saved = dict(s.env)
+                    pk = kc[1] if isinstance(kc, tuple) and kc[0] == 'opt' else '?'
+                    pat = s.bind_pat(sm[0][1], pk)
+                    a1 = s.block(sm[1]); s.env = saved
+                    b1 = s.block_value(nn[1])
+                    return s.bind(f'(match {c} with Some {pat} => ({a1}) | None => ({b1}) end)', '?', k)
                 raise TErr('match arms ' + str(pats))
             return s.expr(e[1], withc)
         if t == 'index':
@@ -442,8 +498,8 @@ class Gen:
                 if name == 'advance_local' and len(args) == 1:
                     return s.expr(args[0], lambda a, _: s.bind(f'lift (g_advance_local (dn_E E) {a})', 'unit', k))
                 if name in s.known:
-                    kn = s.known[name]
-                    return s.exprs(args, lambda xs: s.bind(f'd_{name} E ' + ' '.join(x[0] for x in xs), kn, k))
+                    kn, pks = s.known[name]
+                    return s.args_with_kinds(args, pks, lambda xs: s.bind(f'd_{name} E ' + ' '.join(x[0] for x in xs), kn, k))
                 raise TErr(f'self.{name}: not among the translated functions')
             if s.is_buffer(recv) and name == 'inner_len' and not args: return s.bind('lift (buf_len (dn_E E))', 'nat', k)
             if s.is_cells(recv) and name in ('as_ptr', 'as_mut_ptr') and not args: return s.bind('buf_ptr', 'loc', k)
@@ -455,6 +511,17 @@ class Gen:
             if name == 'then' and len(args) == 1 and args[0][0] == 'closure':
                 return s.expr(recv, lambda c, _: s.bind(f'then_ {c} ({s.block_value(args[0][1])})', ('opt', '?'), k))
             if name == 'ok_or': raise TErr('ok_or')
+            # ---- option.map(|pat| body)
+            if name == 'map' and len(args) == 1 and s.strip(args[0])[0] == 'closure' and len(s.strip(args[0])) > 2 and len(s.strip(args[0])[2]) == 1:
+                cl = s.strip(args[0])
+                def witho(o, ko):
+                    saved = dict(s.env)
+                    pk = ko[1] if isinstance(ko, tuple) and ko[0] == 'opt' else '?'
+                    pat = s.bind_pat(cl[2][0], pk)
+                    body = s.block(cl[1]); s.env = saved
+                    r = s.fresh()
+                    return s.bind(f'(match {o} with Some {pat} => ({r} <~ ({body}) ;; dret (Some {r})) | None => dret None end)', ('opt', '?'), k)
+                return s.expr(recv, witho)
             # ---- everything else: evaluate the receiver, dispatch on its kind
             def withr(r, kr):
                 if kr == 'loc':
@@ -475,11 +542,19 @@ class Gen:
                         a = s.strip(args[0])
                         if a[0] == 'rangeto': return s.expr(a[1], lambda m, _: s.bind(f'sl_prefix {r} {m}', 'slice', k))
                         if a[0] == 'rangefrom': return s.expr(a[1], lambda m, _: s.bind(f'sl_suffix {r} {m}', 'slice', k))
+                    if name in ('split_at_unchecked', 'split_at_mut_unchecked') and len(args) == 1:
+                        return s.expr(args[0], lambda m, _: s.bind(f'sl_prefix {r} {m}', 'slice', lambda a, __: s.bind(f'sl_suffix {r} {m}', 'slice',
+                                      lambda b, ___: k(f'({a}, {b})', ('tuple', ['slice', 'slice'])))))
                     if name == 'clone_from_slice' and len(args) == 1:
                         return s.expr(args[0], lambda b, _: s.bind(f'clone_from_slice E {r} {b}', 'unit', k))
                 raise TErr(f'method {name} on a value of kind {kr}')
             return s.expr(recv, withr)
-        if t == 'closure': raise TErr('closure outside .then()')
+        if t == 'try':
+            def witho(o, ko):
+                v = s.fresh(); ik = ko[1] if isinstance(ko, tuple) and ko[0] == 'opt' else '?'
+                return f'(match {o} with Some {v} => ({k(v, ik)}) | None => dret None end)'
+            return s.expr(e[1], witho)
+        if t == 'closure': raise TErr('closure outside .then() / .map() / an argument position')
         raise TErr('expression ' + t)
 
     def err(s, m): raise TErr(m)
@@ -489,6 +564,7 @@ class Gen:
         return e[0] == 'path' and len(e[1]) == 1 and s.env.get(e[1][0]) == 'val'
 
     def bind_pat(s, p, kind):
+        if p[0] == 'pwild': return '_'
         if p[0] == 'pvar':
             s.env[p[1]] = kind; return cv(p[1])
         ks = kind[1] if isinstance(kind, tuple) and kind[0] == 'tuple' and len(kind[1]) == len(p[1]) else ['?'] * len(p[1])
@@ -517,6 +593,17 @@ class Gen:
                 if st[1][0] == 'pvar': return f'let {pat} := {a} in ' + s.block(rest)
                 return f"let '{pat} := {a} in " + s.block(rest)
             return s.expr(st[2], withv)
+        if t == 'letelse':
+            if st[1][0] != 'psome': raise TErr('let-else pattern')
+            def witho(o, ko):
+                eb = s.block_value(st[3])
+                pk = ko[1] if isinstance(ko, tuple) and ko[0] == 'opt' else '?'
+                pat = s.bind_pat(st[1][1], pk)
+                return f'(match {o} with Some {pat} => ({s.block(rest)}) | None => ({eb}) end)'
+            return s.expr(st[2], witho)
+        if t == 'return':
+            if rest: raise TErr('statements after return')
+            return s.expr(st[1], lambda a, _: f'dret {a}')
         if t == 'assign':
             lhs, rhs = s.strip(st[1]), st[2]
             if lhs[0] == 'deref':
@@ -542,6 +629,13 @@ class Gen:
                     return s.expr(it[3][0], withb)
                 return s.expr(it[1][1], witha)
             raise TErr('for loop of an unknown shape')
+        if t == 'while':
+            s.uses_fuel = True
+            saved = dict(s.env); c = s.expr(st[1], lambda a, _: f'dret {a}'); s.env = saved
+            b = s.block_value(st[2])
+            # [while_] answers whether the loop ended within [fuel] rounds; a loop that is still spinning never reaches what follows it
+            v = s.fresh()
+            r = s.fresh(); return f'{v} <~ while_ fuel ({c}) ({b}) ;; if {v} then ({r} <~ ({s.block(rest)}) ;; dret (Some {r})) else spinning'
         if t == 'expr':
             return s.expr(st[1], lambda a, _: s.block(rest))
         if t == 'tail':
@@ -551,7 +645,7 @@ class Gen:
 
 # (Coq name = d_<fn>, file, fn, self-method table entry: result kind)
 FUNS = [
-    ('iterators/iterator_trait.rs', 'advance'), ('iterators/iterator_trait.rs', 'available'),
+    ('iterators/iterator_trait.rs', 'advance'), ('iterators/iterator_trait.rs', 'available'), ('iterators/iterator_trait.rs', 'wait_for'),
     ('iterators/iterator_trait.rs', 'next'), ('iterators/iterator_trait.rs', 'next_duplicate'),
     ('iterators/iterator_trait.rs', 'next_ref'), ('iterators/iterator_trait.rs', 'next_ref_mut'),
     ('iterators/iterator_trait.rs', 'next_ref_mut_init'),
@@ -588,21 +682,35 @@ def translate(repo):
             for pn, pk in params: g.env[pn] = pk
             code = g.block(body)
             ps = ' '.join(f'({cv(pn)} : {coq_ty(pk)})' for pn, pk in params)
-            out.append(f'(* {f} :: {fn} *)\nDefinition d_{fn} (E : denv) {ps} : DM _ :=\n  {code}.\n')
-            known[fn] = ret
+            fuel = '(fuel : nat) ' if g.uses_fuel else ''
+            out.append(f'(* {f} :: {fn} *)\nDefinition d_{fn} (E : denv) {fuel}{ps} : DM _ :=\n  {code}.\n')
+            known[fn] = (ret, [pk for _, pk in params])
         except (TErr, ValueError, IndexError, KeyError) as ex:
             problems.append(f'{f}::{fn}: outside the translatable subset: {ex}')
             out.append(f'(* d_{fn}: OUTSIDE SUBSET: {ex} *)\n')
     return out, problems
 
+PASS_THROUGH = {  # wrapper file -> the methods that must only pass the call on to the wrapped iterator
+    'iterators/sync_iterators/detached.rs': ['available', 'wait_for', 'index', 'buf_len', 'get_workable', 'get_workable_slice_exact',
+                                              'get_workable_slice_avail', 'get_workable_slice_multiple_of'],
+    'iterators/async_iterators/mod.rs': ['index', 'available', 'advance'],
+}
 def delegations(repo):
-    """the `delegate!(MRBIterator ..., fn name(..))` lines of Detached / AsyncDetached and of the AsyncIterator trait"""
+    """for the Detached wrapper and the AsyncIterator trait: which of the listed methods only pass the call on - either a
+    `delegate!(MRBIterator ..., fn name(..))` line or a hand-written body `self.inner[_mut]().name(args)` / `self.inner.name(args)`"""
     res = []
-    for f in ('iterators/sync_iterators/detached.rs', 'iterators/async_iterators/detached.rs', 'iterators/async_iterators/mod.rs'):
+    for f, names in PASS_THROUGH.items():
         try: txt = strip_comments(open(os.path.join(repo, 'src', f)).read())
         except OSError: continue
-        for m in re.finditer(r'delegate!\(\s*(\w+)[^,]*,\s*(?:pub\s+)?(?:unsafe\s+)?fn\s+(\w+)', txt):
-            res.append((f, m.group(1), m.group(2)))
+        for n in names:
+            ok = re.search(r'delegate!\(\s*MRBIterator[^,]*,\s*(?:pub\s+)?(?:unsafe\s+)?fn\s+' + n + r'\b', txt) is not None
+            if not ok:
+                m = re.search(r'\bfn\s+' + n + r'\s*(?:<[^>]*>)?\s*\(([^)]*)\)[^{;]*\{\s*(?:unsafe\s*\{\s*)?self\s*\.\s*inner(?:_mut)?\s*(?:\(\s*\))?\s*\.\s*' + n + r'\s*\(([^)]*)\)\s*;?\s*\}?\s*\}', txt)
+                if m:
+                    params = [q.split(':')[0].strip() for q in m.group(1).split(',') if ':' in q]
+                    args = [a.strip() for a in m.group(2).split(',') if a.strip()]
+                    ok = params == args
+            res.append((f, n, ok))
     return res
 
 def main(repo, outdir):
@@ -612,9 +720,9 @@ def main(repo, outdir):
              'Require Import MRB.Model.Types MRB.Model.Seq MRB.Model.KernelM MRB.Model.DataM MRB.gen.Kernels.',
              'Open Scope dm_scope.', ''] + defs
     dl = delegations(repo)
-    lines.append('(* delegate!(...) lines: (file, trait delegated to, method) *)')
-    lines.append('Definition delegated : list (string * string * string) := [' +
-                 '; '.join(f'("{f}"%string, "{t}"%string, "{n}"%string)' for f, t, n in dl) + '].')
+    lines.append('(* wrapper methods that must only pass the call on to the wrapped iterator (a delegate! line or an equivalent hand-written body): (file, method, does it?) *)')
+    lines.append('Definition pass_through : list (string * string * bool) := [' +
+                 '; '.join(f'("{f}"%string, "{n}"%string, {"true" if ok else "false"})' for f, n, ok in dl) + '].')
     lines.append(f'Definition data_clean : bool := {"true" if not problems else "false"}.')
     for p in problems: lines.append(f'(* PROBLEM: {p} *)')
     os.makedirs(outdir, exist_ok=True)
